@@ -248,4 +248,41 @@ func init() {
 		out = append(out, Step{K: "boot"}, Step{K: "settle"}, Step{K: "scalein", A: 0, B: r.Intn(8)})
 		return out
 	}}
+
+	// hostile: CRD-admitted but unusual specs next to a well-formed neighbour (C15)
+	profiles["hostile"] = &Profile{Name: "hostile", Tweak: func(r *PRNG, c *Config) {
+		if len(c.Sets) == 1 {
+			sc := c.Sets[0]
+			sc.Name = "db"
+			sc.Labels = map[string]string{"app": "db"}
+			c.Sets = append(c.Sets, sc)
+		}
+		c.Sets = c.Sets[:2]
+		for i := range c.Sets {
+			c.Sets[i].Labels = map[string]string{"app": c.Sets[i].Name}
+		}
+		h := &c.Sets[0]
+		h.Hostile = r.Range(1, 14)
+		h.Defaulted = r.Chance(0.4)
+		if r.Chance(0.4) {
+			sl := exoticSlots[r.Intn(len(exoticSlots))]
+			h.Slots = &sl
+		}
+		h.Replicas = int32(r.Intn(5))
+		if r.Chance(0.3) {
+			h.Claims = 1
+		}
+		c.Sets[1].Hostile = 0
+		c.Sets[1].Defaulted = true
+		c.Sets[1].Replicas = int32(r.Range(1, 3))
+		c.Weights["mkrev"] = 2
+		c.Weights["delset"] = 0
+		c.Weights["strategy"] = 0
+		c.Weights["partition"] = 0
+		c.Weights["policy"] = 0
+		c.Weights["resubmit"] = 0
+		c.Weights["slots"] = 0
+		c.Weights["slotadd"] = 0
+		c.Weights["xslots"] = 4
+	}}
 }
